@@ -233,7 +233,8 @@ static int w_enabled(int opi)
         }
         return 0; }
     case T_ENC:
-        if (g_mode == MODE_C06 && W.phase == PH_CLEANED) return W.postclean < 1 && o->a == 1 && o->b == 0;
+        /* data calls on a cleaned-up object (one byte, then also an empty request) must return 0 and touch nothing */
+        if ((g_mode == MODE_C06 || g_mode == MODE_C14) && W.phase == PH_CLEANED) return W.postclean < 2 && (o->a == 1 || o->a == 0) && o->b == 0;
         if (!live) return 0;
         if (!W.keyed) return g_mode == MODE_C06 && W.unkeyed_enc < 1 && (o->a == 1 || o->a == g_bs + 1) && o->b == 0;
         if (g_mode == MODE_C14) return W.consumed < g_bs + 2 && (o->a == 1 || o->a == g_bs) && o->b == 0;
